@@ -12,6 +12,9 @@ try() { name=$1; commit=$2; shift 2
   done; done
   git reset -q --hard HEAD
 }
+if [ -n "$ONLY" ]; then eval "$ONLY"; echo DONE >> $L; exit 0; fi
+try F8 159af49 C18
+try F5b 09f9901 C18
 try F7 77b1c92 C11
 try F6 cd1dceb C18
 try F4 5888b36 C12 C03
